@@ -122,3 +122,15 @@ Definition H_budget (o : options) (raw P : chain) : Prop :=
    nothing may follow such a leaf. *)
 Definition H_leafroot (o : options) (raw : chain) : Prop :=
   forall c0 rest, raw = c0 :: rest -> pool_contains (pool_of (o_roots o)) c0 = true -> rest = [].
+
+(* ---------------------------------------------------------------- precertificates *)
+
+(* the four classes of the (first) CT poison extension of a certificate *)
+Inductive pclass := PAbsent | PCriticalNull | PNonCritical | PCriticalNonNull.
+Definition poison_class (c : cert) : pclass :=
+  match find is_poison (c_exts c) with
+  | None => PAbsent
+  | Some e => if e_critical e then (if e_null e then PCriticalNull else PCriticalNonNull) else PNonCritical
+  end.
+Definition malformed_poison (c : cert) : Prop :=
+  poison_class c = PNonCritical \/ poison_class c = PCriticalNonNull.
